@@ -460,15 +460,15 @@ def _ml(tier):
 HARNESSES = [
     HarnessSpec('public', h_public, lambda t: [{'mlen': n, 'part': p} for n in _ml(t)
                                                for p in ('check', 'sa_altered', 'decrypt', 'check_sig', 'recover')],
-                replay=r_public, signature=_sig, fallback=_fallback),
-    HarnessSpec('private', h_private, lambda t: [{'mlen': n} for n in (2,)], replay=r_private, signature=_sig, fallback=_fallback),
+                witness_replay=True, replay=r_public, signature=_sig, fallback=_fallback),
+    HarnessSpec('private', h_private, lambda t: [{'mlen': n} for n in (2,)], witness_replay=True, replay=r_private, signature=_sig, fallback=_fallback),
     HarnessSpec('builders', h_builders, lambda t: ([{'variant': 'pub', 'lite': True}, {'variant': 'prv', 'lite': True},
                                                     {'variant': 'pub', 'lite': True, 'flags': '01'}, {'variant': 'prv', 'lite': True, 'flags': '01'}]
                                                    if t == 'quick' else
                                                    [{'variant': 'pub'}, {'variant': 'prv'}, {'variant': 'pub', 'lite': True, 'flags': '01'},
                                                     {'variant': 'prv', 'lite': True, 'flags': '01'}, {'variant': 'prv', 'lite': True, 'flags': '82'}]),
-                replay=r_builders, signature=_sig, fallback=_fallback),
-    HarnessSpec('tweak_validity', h_tweak_validity, [{'which': 'check'}, {'which': 'make'}], replay=r_tweak_validity, signature=_sig,
+                witness_replay=True, replay=r_builders, signature=_sig, fallback=_fallback),
+    HarnessSpec('tweak_validity', h_tweak_validity, [{'which': 'check'}, {'which': 'make'}], witness_replay=True, replay=r_tweak_validity, signature=_sig,
                 fallback=lambda p, rng: {'seed': rng.randbytes(32), 'm': rng.randbytes(2)}),
     HarnessSpec('ptlc_tweak', h_ptlc_tweak, replay=r_tweak, signature=_sig, fallback=lambda p, rng: {**_fallback(p, rng), 'refund': rng.randbytes(32)}),
 ]
